@@ -468,4 +468,1269 @@ Proof.
 Qed.
 
 
+(* cat.c:658 *)
+Lemma start_flush_after_ok_safe : forall f s, Pre f s -> In 0%N (g_buf f s) ->
+  Safe (start_flush_after_ok f s).
+Proof.
+  intros f s H Hn. unfold start_flush_after_ok, start_flush_c, start_flush_u.
+  destruct f; pre_open H; sproj_in Hn; safe_split;
+    [unfold KS, flush_ok, Kafter | unfold US, flush_ok, Uafter]; sproj; auto using nl_max_0.
+Qed.
+
+Lemma start_flush_after_safe : forall f ac au s, Pre f s -> In 0%N (g_buf f s) ->
+  (ac = CS_AFTER_OK /\ au = US_AFTER_OK) \/
+  (cmd_ok (g_cmd f s) /\ ((ac = CS_AFTER_FMT_READ /\ au = US_AFTER_FMT_READ) \/
+                          (ac = CS_AFTER_FMT_TEST /\ au = US_AFTER_FMT_TEST))) ->
+  Safe (start_flush_after f ac au s).
+Proof.
+  intros f ac au s H Hn Ha. unfold start_flush_after, start_flush_c, start_flush_u.
+  destruct f; pre_open H; sproj_in Hn; sproj_in Ha; safe_split;
+    [unfold KS, flush_ok, Kafter | unfold US, flush_ok, Uafter]; sproj;
+    (split; [auto using nl_max_0|]);
+    destruct Ha as [[-> ->] | [Hc [[-> ->] | [-> ->]]]]; auto.
+Qed.
+
+Lemma print_response_test_safe : forall f s, Pre f s -> cmd_ok (g_cmd f s) ->
+  g_pos f s <= g_bsz f s -> nth_error (g_buf f s) (g_pos f s) = Some 0%N ->
+  if snd (print_response_test D f s) then Safe (fst (print_response_test D f s))
+  else Pre f (fst (print_response_test D f s)).
+Proof.
+  intros f s H Hc Hp Hn. unfold print_response_test, cmd_of, cmd_at.
+  destruct (cmd_ok_at _ Hc) as (ci & c & E1 & E2). rewrite E1, E2.
+  destruct (c_descr c) as [d|].
+  - destruct f; sproj_in Hc; sproj_in Hp; sproj_in Hn; sproj_in E1; pre_open H.
+    + do_print; [|pre_tac].
+      assert (Zn : nth_error b p = Some 0%N) by (apply Z; [reflexivity | right; discriminate]).
+      destruct (c_htest c); sproj.
+      * unfold set_loop_state. safe_split; try congruence. unfold KS; sproj.
+        split; [exact Hc | eapply nth_In0; eauto].
+      * apply start_flush_after_ok_safe; [pre_tac | sproj; eapply nth_In0; eauto].
+    + do_print; [|pre_tac].
+      assert (Zn : nth_error b p = Some 0%N) by (apply Z; [reflexivity | right; discriminate]).
+      destruct (c_htest c); sproj.
+      * unfold set_loop_state. safe_split; try congruence. unfold US; sproj.
+        split; [exact Hc | eapply nth_In0; eauto].
+      * apply start_flush_after_ok_safe; [pre_tac | sproj; eapply nth_In0; eauto].
+  - cbn [negb]. destruct (c_htest c); cbn [fst snd].
+    + unfold set_loop_state.
+      destruct f; sproj_in Hc; sproj_in Hp; sproj_in Hn; pre_open H; safe_split;
+        [unfold KS | unfold US]; sproj; (split; [exact Hc | eapply nth_In0; eauto]).
+    + apply start_flush_after_ok_safe; [exact H | eapply nth_In0; eauto].
+Qed.
+
+(* cat.c:869 *)
+Lemma spfta_safe : forall f s, Pre f s -> cmd_ok (g_cmd f s) ->
+  Safe (start_processing_format_test_args D f s).
+Proof.
+  intros f s H Hc. unfold start_processing_format_test_args.
+  assert (Hc0 : cmd_ok (g_cmd f (setg_pos f 0 s))) by (destruct f; exact Hc).
+  unfold cmd_of at 1, cmd_at.
+  destruct (cmd_ok_at _ Hc0) as (ci & c & E1 & E2). rewrite E1, E2.
+  destruct f; sproj_in E1; sproj_in Hc; pre_open H.
+  - do_print; [|apply ack_error_safe; pre_tac].
+    do_print; [|apply ack_error_safe; pre_tac].
+    destruct (c_vars c) as [|v0 vr] eqn:EV.
+    + match goal with |- context [print_response_test D ATCMD ?s2] =>
+        pose proof (print_response_test_safe ATCMD s2) as R;
+        destruct (print_response_test D ATCMD s2) as [s3 ok3] end.
+      cbn [fst snd] in R. sproj_in R.
+      destruct ok3; [|apply ack_error_safe]; apply R; auto; pre_tac.
+    + safe_split; try congruence. unfold KS, var_ok; sproj. rewrite E1, E2, EV. cbn [length].
+      split; [lia | assumption].
+  - do_print; [|apply unsolicited_reset_state_safe; pre_tac].
+    do_print; [|apply unsolicited_reset_state_safe; pre_tac].
+    destruct (c_vars c) as [|v0 vr] eqn:EV.
+    + match goal with |- context [print_response_test D UNSOL ?s2] =>
+        pose proof (print_response_test_safe UNSOL s2) as R;
+        destruct (print_response_test D UNSOL s2) as [s3 ok3] end.
+      cbn [fst snd] in R. sproj_in R.
+      destruct ok3; [|apply unsolicited_reset_state_safe]; apply R; auto; pre_tac.
+    + safe_split; try congruence. unfold US, var_ok; sproj. rewrite E1, E2, EV. cbn [length].
+      split; [lia | assumption].
+Qed.
+
+
+(* ------------------------------------------------------------------ *)
+(* the formatting loops                                                 *)
+(* ------------------------------------------------------------------ *)
+
+Definition fmt_state (f : fsm) (s : state) (rd : bool) : Prop :=
+  match f with
+  | ATCMD => k_state (k s) = (if rd then CS_FORMAT_READ_ARGS else CS_FORMAT_TEST_ARGS)
+  | UNSOL => u_state (u s) = (if rd then US_FORMAT_READ_ARGS else US_FORMAT_TEST_ARGS)
+  end.
+
+(* cat.c:1746 *)
+Lemma next_format_var_safe : forall f s rd, Pre f s -> fmt_state f s rd ->
+  cmd_ok (g_cmd f s) -> g_pos f s <= g_bsz f s ->
+  (snd (next_format_var D f s) = true -> Safe (fst (next_format_var D f s))) /\
+  (snd (next_format_var D f s) = false ->
+   fst (next_format_var D f s) = setg_index f (S (g_index f s)) s).
+Proof.
+  intros f s rd H Hst Hc Hp. unfold next_format_var, cmd_of, cmd_at.
+  destruct (cmd_ok_at _ Hc) as (ci & c & E1 & E2). rewrite E1, E2.
+  destruct (Nat.ltb_spec (S (g_index f s)) (length (c_vars c))) as [Lv|Lv];
+    [|cbn [fst snd]; split; [discriminate | reflexivity]].
+  destruct f; sproj; sproj_in Hc; sproj_in Hp; sproj_in E1; sproj_in Lv; cbn [fmt_state] in Hst;
+    pre_open H.
+  - destruct (Nat.leb_spec (length (cbuf s)) (k_position (k s))) as [Lp|Lp]; cbn [fst snd];
+      (split; [intros _ | discriminate]).
+    + apply ack_error_safe. pre_tac.
+    + safe_split; [rewrite upd_len; assumption|]. unfold KS, var_ok; sproj. rewrite Hst, E1, E2, upd_len.
+      destruct rd; repeat split; lia.
+  - destruct (Nat.leb_spec (length (ubuf s)) (u_position (u s))) as [Lp|Lp]; cbn [fst snd];
+      (split; [intros _ | discriminate]).
+    + apply unsolicited_reset_state_safe. pre_tac.
+    + safe_split; [rewrite upd_len; assumption|]. unfold US, var_ok; sproj. rewrite Hst, E1, E2, upd_len.
+      destruct rd; repeat split; lia.
+Qed.
+
+Lemma var_ok_at : forall oc vi, var_ok oc vi ->
+  exists ci c v, oc = Some ci /\ nth_error (pool D) ci = Some c /\ nth_error (c_vars c) vi = Some v.
+Proof.
+  intros [ci|] vi H; cbn in H; [|tauto]. destruct (nth_error (pool D) ci) as [c|] eqn:E; [|tauto].
+  destruct (nth_error (c_vars c) vi) as [v|] eqn:E2; [eauto 6|].
+  apply nth_error_None in E2. lia.
+Qed.
+
+(* the machine-f part of Safe in a formatting state *)
+Lemma fmt_state_inv : forall f s rd, Safe s -> fmt_state f s rd ->
+  var_ok (g_cmd f s) (g_var f s) /\ g_pos f s <= g_bsz f s /\
+  (rd = true -> g_var f s = 0 -> nth_error (g_buf f s) (g_pos f s) = Some 0%N).
+Proof.
+  intros f s rd (HB & HK & HU) Hst. destruct f; cbn [fmt_state] in Hst; sproj.
+  - unfold KS in HK. rewrite Hst in HK. destruct rd; [|split; [apply HK | split; [apply HK | discriminate]]].
+    destruct HK as (A & B & C). auto.
+  - unfold US in HU. rewrite Hst in HU. destruct rd; [|split; [apply HU | split; [apply HU | discriminate]]].
+    destruct HU as (A & B & C). auto.
+Qed.
+
+(* cat.c:1857 *)
+Lemma format_test_args_safe : forall f s, Safe s -> fmt_state f s false ->
+  Safe (format_test_args D f s).
+Proof.
+  intros f s H Hst. destruct (fmt_state_inv f s false H Hst) as (Hv & Hp & _).
+  pose proof (var_ok_cmd _ _ Hv) as Hc.
+  destruct (var_ok_at _ _ Hv) as (ci & c & v & E1 & E2 & E3).
+  unfold format_test_args, cmd_of, cmd_at. rewrite E1, E2, E3.
+  destruct (fmt_info_ok v _ _ (get_cur_ok f s Hp)) as [(A1 & A2 & A3) B].
+  destruct (fmt_info v (get_cur f s)) as [c1 ok]. cbn [fst snd] in *.
+  rewrite put_cur_nf by exact A1. apply (safe_pre f) in H.
+  assert (HP1 : Pre f (setg_pos f (cu_pos c1) (setg_buf f (cu_buf c1) s))).
+  { destruct f; sproj_in A2; pre_open H; pre_tac. }
+  destruct ok; cbn [negb]; [|apply end_with_error_safe; exact HP1].
+  specialize (B eq_refl). unfold cur_nul in B.
+  set (s1 := setg_pos f (cu_pos c1) (setg_buf f (cu_buf c1) s)) in *.
+  assert (Hst1 : fmt_state f s1 false) by (destruct f; exact Hst).
+  assert (Hc1 : cmd_ok (g_cmd f s1)) by (destruct f; exact Hc).
+  assert (Hp1 : g_pos f s1 <= g_bsz f s1) by (destruct f; subst s1; sproj; lia).
+  destruct (next_format_var_safe f s1 false HP1 Hst1 Hc1 Hp1) as [N1 N2].
+  destruct (next_format_var D f s1) as [s2 handled]. cbn [fst snd] in *.
+  destruct handled; [apply N1; reflexivity|]. rewrite (N2 eq_refl).
+  set (s2' := setg_index f (S (g_index f s1)) s1).
+  assert (R : if snd (print_response_test D f s2') then Safe (fst (print_response_test D f s2'))
+              else Pre f (fst (print_response_test D f s2'))).
+  { apply print_response_test_safe.
+    - destruct f; subst s2' s1; sproj_in A2; pre_open H; pre_tac.
+    - destruct f; exact Hc.
+    - destruct f; subst s2' s1; sproj; lia.
+    - destruct f; subst s2' s1; sproj; exact B. }
+  destruct (print_response_test D f s2') as [s3 ok3]. cbn [fst snd] in R.
+  destruct ok3; [exact R | apply end_with_error_safe; exact R].
+Qed.
+
+(* a read/test handler replacing the text of its buffer *)
+Lemma apply_edit_eff : forall f e s,
+  apply_edit f e s = s \/
+  exists b p, apply_edit f e s = setg_pos f p (setg_buf f b s) /\
+              length b = g_bsz f s /\ In 0%N b.
+Proof.
+  intros f e s. unfold apply_edit. destruct e as [t|]; [|left; reflexivity].
+  destruct (Nat.ltb_spec (length t) (g_bsz f s)) as [L|L]; [|left; reflexivity]. right.
+  destruct (csl_props (t ++ [0%N]) (get_cur f s) 0) as (A & B & C).
+  { rewrite app_length. cbn [length get_cur cu_buf]. unfold g_bsz in L. lia. }
+  pose proof (csl_last t (get_cur f s) 0 0%N) as Hl. cbn [plus] in Hl.
+  eexists _, _. split; [apply put_cur_nf; cbn [cur_set_pos cu_fault]; rewrite C; reflexivity|].
+  cbn [cur_set_pos cu_buf cu_pos]. split; [exact A|].
+  eapply nth_In0. apply Hl. exact L.
+Qed.
+
+
+Lemma wf_var_at : forall ci c vi v, nth_error (pool D) ci = Some c -> nth_error (c_vars c) vi = Some v ->
+  wf_var m v /\ (vi <> 0 -> prints_something v).
+Proof.
+  intros ci c vi v E1 E2. destruct WF as (_ & _ & _ & _ & W1 & W2). split.
+  - eapply Forall_nth_error in W1; [|exact E1]. cbv beta in W1. eapply Forall_nth_error in W1; eauto.
+  - intros Hv. eapply Forall_nth_error in W2; [|exact E1]. cbv beta in W2.
+    destruct vi as [|j]; [congruence|]. destruct (c_vars c) as [|v0 vr]; [discriminate|].
+    cbn [tl nth_error] in *. eapply Forall_nth_error in W2; eauto.
+Qed.
+
+Lemma mem_slot : forall s v, map (@length N) (mem s) = map (@length N) m -> wf_var m v ->
+  exists data, nth_error (mem s) (v_slot v) = Some data /\ v_size v <= length data.
+Proof.
+  intros s v Hm (d0 & E & L). destruct (nth_error_map_length _ _ _ _ Hm E) as (d & E' & L').
+  exists d. split; [exact E' | lia].
+Qed.
+
+Lemma set_loop_state_safe : forall f rd s, Pre f s -> cmd_ok (g_cmd f s) -> In 0%N (g_buf f s) ->
+  Safe (set_loop_state f rd s).
+Proof.
+  intros f rd s H Hc Hn. unfold set_loop_state.
+  destruct f; sproj_in Hc; sproj_in Hn; pre_open H; safe_split; [unfold KS | unfold US]; sproj;
+    destruct rd; auto.
+Qed.
+
+(* the part of format_read_args that runs after the variable's read callback (cat.c:1783) *)
+Lemma fra_body_safe : forall f s ci c v, Safe s -> fmt_state f s true ->
+  g_cmd f s = Some ci -> nth_error (pool D) ci = Some c ->
+  nth_error (c_vars c) (g_var f s) = Some v ->
+  Safe (match nth_error (mem s) (v_slot v) with
+        | None => set_fault_flag s
+        | Some data =>
+          let (c1, ok) := fmt_var v data (get_cur f s) in
+          let s1 := put_cur f c1 s in
+          if negb ok then end_with_error f s1
+          else
+            let (s2, handled) := next_format_var D f s1 in
+            if handled then s2
+            else if c_hread c then set_loop_state f true s2
+            else start_flush_after_ok f s2
+        end).
+Proof.
+  intros f s ci c v H Hst E1 E2 E3.
+  destruct (fmt_state_inv f s true H Hst) as (Hv & Hp & Hz).
+  pose proof (var_ok_cmd _ _ Hv) as Hc.
+  destruct (wf_var_at _ _ _ _ E2 E3) as [Wv Wp].
+  assert (Hm : map (@length N) (mem s) = map (@length N) m) by apply H.
+  destruct (mem_slot s v Hm Wv) as (data & Ed & Ld). rewrite Ed.
+  destruct (fmt_var_ok v data _ _ (get_cur_ok f s Hp) Ld) as [(A1 & A2 & A3) B].
+  destruct (fmt_var v data (get_cur f s)) as [c1 ok]. cbn [fst snd] in *. cbv zeta.
+  rewrite put_cur_nf by exact A1. apply (safe_pre f) in H.
+  assert (HP1 : Pre f (setg_pos f (cu_pos c1) (setg_buf f (cu_buf c1) s))).
+  { destruct f; sproj_in A2; pre_open H; pre_tac. }
+  destruct ok; cbn [negb]; [|apply end_with_error_safe; exact HP1].
+  assert (B' : cur_nul c1).
+  { apply B; [reflexivity|]. destruct (Nat.eq_dec (g_var f s) 0) as [Z|Z].
+    - left. unfold cur_nul, get_cur. cbn [cu_buf cu_pos]. apply Hz; auto.
+    - right. apply Wp. exact Z. }
+  clear B. unfold cur_nul in B'.
+  set (s1 := setg_pos f (cu_pos c1) (setg_buf f (cu_buf c1) s)) in *.
+  assert (Hst1 : fmt_state f s1 true) by (destruct f; exact Hst).
+  assert (Hc1 : cmd_ok (g_cmd f s1)) by (destruct f; exact Hc).
+  assert (Hp1 : g_pos f s1 <= g_bsz f s1) by (destruct f; subst s1; sproj; lia).
+  destruct (next_format_var_safe f s1 true HP1 Hst1 Hc1 Hp1) as [N1 N2].
+  destruct (next_format_var D f s1) as [s2 handled]. cbn [fst snd] in *.
+  destruct handled; [apply N1; reflexivity|]. rewrite (N2 eq_refl).
+  set (s2' := setg_index f (S (g_index f s1)) s1).
+  assert (HP2 : Pre f s2') by (destruct f; subst s2' s1; sproj_in A2; pre_open H; pre_tac).
+  assert (Hn2 : In 0%N (g_buf f s2')).
+  { apply (nth_In0 _ (cu_pos c1)). destruct f; subst s2' s1; sproj; exact B'. }
+  destruct (c_hread c).
+  - apply set_loop_state_safe; auto. destruct f; exact Hc.
+  - apply start_flush_after_ok_safe; auto.
+Qed.
+
+
+(* ------------------------------------------------------------------ *)
+(* name matching                                                        *)
+(* ------------------------------------------------------------------ *)
+
+Lemma cmd_by_index_nth : forall gs i, cmd_by_index gs i = nth_error (concat gs) i.
+Proof.
+  induction gs as [|g gs IH]; intros i; cbn [cmd_by_index concat].
+  - destruct i; reflexivity.
+  - destruct (Nat.ltb_spec i (length g)) as [L|L].
+    + rewrite nth_error_app1 by exact L. reflexivity.
+    + rewrite nth_error_app2 by exact L. apply IH.
+Qed.
+
+Lemma cmd_by_index_some : forall i, i < ncmds D -> exists c, cmd_by_index (d_groups D) i = Some c.
+Proof.
+  intros i H. rewrite cmd_by_index_nth. fold (cmds D).
+  destruct (nth_error (cmds D) i) eqn:E; [eauto|]. apply nth_error_None in E. unfold ncmds in H. lia.
+Qed.
+
+Lemma lane_lt : forall s i, length (cbuf s) = asz_of D -> i < ncmds D -> i / 4 < length (cbuf s).
+Proof.
+  intros s i Hcb H. pose proof wf_lanes. rewrite Hcb.
+  apply Nat.div_lt_upper_bound; lia.
+Qed.
+
+Lemma get_cmd_state_some : forall s i, length (cbuf s) = asz_of D -> i < ncmds D ->
+  exists v, get_cmd_state D s i = Some v.
+Proof.
+  intros s i Hcb H. unfold get_cmd_state. destruct (is_command_disable D s i); [eauto|].
+  destruct (nth_error (cbuf s) (i / 4)) eqn:E; [eauto|].
+  apply nth_error_None in E. pose proof (lane_lt s i Hcb H). lia.
+Qed.
+
+Lemma set_cmd_state_eff : forall s i v, length (cbuf s) = asz_of D -> i < ncmds D ->
+  exists b, set_cmd_state s i v = set_cbuf b s /\ length b = length (cbuf s).
+Proof.
+  intros s i v Hcb H. unfold set_cmd_state.
+  destruct (nth_error (cbuf s) (i / 4)) eqn:E.
+  - eexists. split; [reflexivity|]. apply upd_len.
+  - apply nth_error_None in E. pose proof (lane_lt s i Hcb H). lia.
+Qed.
+
+Lemma state_eta_cbuf_impl : forall s, s = setk_implicit (k_implicit (k s)) (set_cbuf (cbuf s) s).
+Proof. intros [[] ? ? ? ? ? ? ? ? ? ?]. reflexivity. Qed.
+
+(* cat.c:809 *)
+Lemma update_command_safe : forall s, Safe s -> k_state (k s) = CS_UPDATE_COMMAND_STATE ->
+  Safe (update_command D s).
+Proof.
+  intros s H Hst. safe_open H. unfold KS in HK. rewrite Hst in HK. destruct HK as [Hi Hl].
+  unfold update_command.
+  destruct (cmd_by_index_some _ Hi) as (c & Ec). rewrite Ec.
+  destruct (get_cmd_state_some s _ Hcb Hi) as (cs & Ecs). rewrite Ecs.
+  match goal with |- context [if negb (cs =? CMD_NOT_MATCH)%N then ?A else s] =>
+    set (X := if negb (cs =? CMD_NOT_MATCH)%N then A else s) end.
+  assert (E : exists b imp, X = setk_implicit imp (set_cbuf b s) /\ length b = length (cbuf s)).
+  { subst X. assert (Eta : exists b imp, s = setk_implicit imp (set_cbuf b s) /\ length b = length (cbuf s))
+      by (eexists _, _; split; [apply state_eta_cbuf_impl | reflexivity]).
+    assert (Set_ : forall v, exists b imp, set_cmd_state s (k_index (k s)) v =
+                     setk_implicit imp (set_cbuf b s) /\ length b = length (cbuf s)).
+    { intros v. destruct (set_cmd_state_eff s (k_index (k s)) v Hcb Hi) as (b & Eb & Lb).
+      exists b, (k_implicit (k s)). split; [|exact Lb]. rewrite Eb.
+      destruct s as [[] ? ? ? ? ? ? ? ? ? ?]. reflexivity. }
+    destruct (negb (cs =? CMD_NOT_MATCH)%N); [|exact Eta].
+    destruct (Nat.ltb_spec (length (c_name c)) (k_length (k s))) as [L1|L1]; [apply Set_|].
+    destruct (k_length (k s)) as [|l1] eqn:El; [lia|].
+    destruct (nth_error (c_name c) l1) as [nc|] eqn:En;
+      [|apply nth_error_None in En; lia].
+    destruct (negb (to_upper nc =? k_char (k s))%N); [apply Set_|].
+    destruct (S l1 =? length (c_name c)); [|exact Eta].
+    destruct (set_cmd_state_eff s (k_index (k s)) CMD_FULL Hcb Hi) as (b & Eb & Lb). rewrite Eb.
+    destruct (c_implicit c).
+    - exists b, true. split; [reflexivity | exact Lb].
+    - exists b, (k_implicit (k s)). split; [|exact Lb].
+      destruct s as [[] ? ? ? ? ? ? ? ? ? ?]. reflexivity. }
+  destruct E as (b & imp & E & Lb). rewrite E. clear E X. cbv zeta.
+  pose proof wf_ncmds.
+  destruct (Nat.leb_spec (ncmds D) (S (k_index (k s)))) as [L|L].
+  - sproj. destruct imp; cbn [negb]; unfold prepare_search_command;
+      safe_split; try congruence; unfold KS, cmd_wk; sproj; auto.
+  - safe_split; try congruence. unfold KS; sproj. rewrite Hst. lia.
+Qed.
+
+Ltac leb_norm :=
+  repeat match goal with
+  | H : (_ <=? _) = true |- _ => apply Nat.leb_le in H
+  | H : (_ <=? _) = false |- _ => apply Nat.leb_gt in H
+  | H : (_ <? _) = true |- _ => apply Nat.ltb_lt in H
+  | H : (_ <? _) = false |- _ => apply Nat.ltb_ge in H
+  end.
+
+Ltac break_safe :=
+  repeat (sproj; match goal with |- Safe (match ?x with _ => _ end) => destruct x eqn:? end).
+
+(* cat.c:933 *)
+Lemma search_command_safe : forall s, Safe s -> k_state (k s) = CS_SEARCH_COMMAND ->
+  Safe (search_command D s).
+Proof.
+  intros s H Hst. safe_open H. unfold KS in HK. rewrite Hst in HK.
+  unfold search_command.
+  destruct (get_cmd_state_some s _ Hcb HK) as (cs & Ecs). rewrite Ecs.
+  pose proof ncmds_pool as Hnp.
+  assert (Hi : k_index (k s) < npool) by lia.
+  cbv zeta beta. break_safe; leb_norm;
+    safe_split; unfold KS, cmd_ok, cmd_wk in *; sproj;
+    repeat match goal with E : k_cmd (k s) = _ |- _ => rewrite E in * end;
+    try rewrite Hst; try (destruct (k_char (k s) =? ch_LF)%N); auto; try lia.
+Qed.
+
+(* cat.c:1019 *)
+Lemma command_found_safe : forall s, Safe s -> k_state (k s) = CS_COMMAND_FOUND ->
+  Safe (command_found D s).
+Proof.
+  intros s H Hst. pose proof (safe_pre ATCMD s H) as HP. safe_open H.
+  unfold KS in HK. rewrite Hst in HK.
+  unfold command_found, cmd_of, cmd_at. sproj.
+  destruct (cmd_ok_at _ HK) as (ci & c & E1 & E2). rewrite E1, E2.
+  destruct (k_type (k s)); try (apply ack_error_safe; exact HP).
+  - destruct (c_only_test c); [apply ack_error_safe; exact HP|].
+    destruct (c_hrun c); cbn [negb]; [|apply ack_error_safe; exact HP].
+    safe_split; unfold KS; sproj; exact HK.
+  - destruct (c_only_test c); [apply ack_error_safe; exact HP|].
+    apply spfra_safe; [exact HP | exact HK].
+  - sproj. pose proof wf_asz. destruct (cbuf s) as [|x r] eqn:Eb; [cbn [length] in Hcb; lia|].
+    safe_split. unfold KS; sproj. split; [exact HK | reflexivity].
+Qed.
+
+(* cat.c:2445,2453 *)
+Lemma process_io_write_wait_safe : forall s, Safe s -> k_state (k s) = CS_FLUSH_WAIT ->
+  Safe (process_io_write_wait s).
+Proof.
+  intros s H Hst. unfold process_io_write_wait. destruct (negb _); [|exact H].
+  safe_open H. safe_split; unfold KS in *; rewrite Hst in HK; sproj; exact HK.
+Qed.
+
+Lemma unsolicited_process_io_write_wait_safe : forall s, Safe s -> u_state (u s) = US_FLUSH_WAIT ->
+  Safe (unsolicited_process_io_write_wait s).
+Proof.
+  intros s H Hst. unfold unsolicited_process_io_write_wait. destruct (negb _); [|exact H].
+  safe_open H. safe_split; unfold US in *; rewrite Hst in HU; sproj; exact HU.
+Qed.
+
+
+(* ------------------------------------------------------------------ *)
+(* the list printer (cat.c:2031-2144)                                   *)
+(* ------------------------------------------------------------------ *)
+
+Lemma start_print_cmd_list_safe : forall s, Pre ATCMD s -> Safe (start_print_cmd_list D s).
+Proof.
+  intros s H. unfold start_print_cmd_list. destruct (ncmds D =? 0); [apply ack_ok_safe; exact H|].
+  pre_open H. safe_split; unfold KS; sproj; apply wf_ncmds.
+Qed.
+
+Lemma cmd_list_next_safe : forall s, Pre ATCMD s ->
+  Safe (let (s1, more) := cmd_list_next_cmd D s in if more then s1 else ack_ok s1).
+Proof.
+  intros s H. unfold cmd_list_next_cmd.
+  destruct (Nat.leb_spec (ncmds D) (S (k_index (k s)))) as [L|L].
+  - apply ack_ok_safe. pre_open H. pre_tac.
+  - pre_open H. safe_split; unfold KS; sproj; exact L.
+Qed.
+
+Lemma print_cmd_form_safe : forall s c avail suffix next, Pre ATCMD s -> k_index (k s) < ncmds D ->
+  k_state (k s) = CS_PRINT_CMD ->
+  Safe (print_cmd_form s c avail suffix next).
+Proof.
+  intros s c avail suffix next H Hi Hst. unfold print_cmd_form. destruct avail.
+  - unfold print_current_cmd_full_name. pre_open H. sproj.
+    destruct (k_length (k s) =? 0).
+    + do_print; [|apply ack_error_safe; pre_tac].
+      do_print; [|apply ack_error_safe; pre_tac].
+      unfold start_flush_raw_c. safe_split; try congruence.
+      unfold KS, flush_ok, Kafter; sproj.
+      assert (Zn : nth_error b0 p0 = Some 0%N) by (apply Z0; [reflexivity | right; discriminate]).
+      repeat split; auto. eapply nth_nul_from; eauto. lia.
+    + cbn [negb]. do_print; [|apply ack_error_safe; pre_tac].
+      unfold start_flush_raw_c. safe_split; try congruence.
+      unfold KS, flush_ok, Kafter; sproj.
+      assert (Zn : nth_error b p = Some 0%N) by (apply Z; [reflexivity | right; discriminate]).
+      repeat split; auto. eapply nth_nul_from; eauto. lia.
+  - pre_open H. safe_split; unfold KS; sproj; rewrite Hst; exact Hi.
+Qed.
+
+Lemma print_cmd_list_safe : forall s, Safe s -> k_state (k s) = CS_PRINT_CMD ->
+  Safe (print_cmd_list D s).
+Proof.
+  intros s H Hst. pose proof (safe_pre ATCMD s H) as HP. safe_open H.
+  unfold KS in HK. rewrite Hst in HK.
+  unfold print_cmd_list. destruct (cmd_by_index_some _ HK) as (c & Ec). rewrite Ec.
+  pose proof ncmds_pool as Hnp.
+  assert (HP1 : Pre ATCMD (setk_cmd (Some (k_index (k s))) s)).
+  { split; [base_split; unfold cmd_wk; lia | sproj; assumption]. }
+  sproj. destruct (k_type (k s)).
+  - destruct (is_command_disable D _ (k_index (k s))).
+    + apply cmd_list_next_safe. exact HP1.
+    + safe_split; unfold cmd_wk, KS; sproj; try rewrite Hst; lia.
+  - apply print_cmd_form_safe; auto.
+  - apply print_cmd_form_safe; auto.
+  - apply print_cmd_form_safe; auto.
+  - apply print_cmd_form_safe; auto.
+  - apply cmd_list_next_safe. exact HP1.
+Qed.
+
+(* ------------------------------------------------------------------ *)
+(* the bodies of the reading states                                     *)
+(* ------------------------------------------------------------------ *)
+
+Lemma setk_cr_safe : forall s b, Safe s -> Safe (setk_cr b s).
+Proof. intros s b H. safe_open H. safe_split. Qed.
+
+Lemma setk_state_plain_safe : forall s cs, Pre ATCMD s ->
+  (cs = CS_ERROR \/ cs = CS_PARSE_PREFIX \/ cs = CS_IDLE) -> Safe (setk_state cs s).
+Proof.
+  intros s cs H Hc. pre_open H. safe_split. unfold KS; sproj.
+  destruct Hc as [-> | [-> | ->]]; exact I.
+Qed.
+
+Lemma error_body_safe : forall ch s, Safe s ->
+  Safe (if (ch =? ch_LF)%N then ack_error s else if (ch =? ch_CR)%N then setk_cr true s else s).
+Proof.
+  intros ch s H. destruct (ch =? ch_LF)%N; [apply ack_error_safe, safe_pre, H|].
+  destruct (ch =? ch_CR)%N; [apply setk_cr_safe, H | exact H].
+Qed.
+
+Lemma idle_body_safe : forall ch s, Safe s ->
+  Safe (if (ch =? ch_A)%N then setk_state CS_PARSE_PREFIX s
+        else if (ch =? ch_LF)%N || (ch =? ch_CR)%N then s else setk_state CS_ERROR s).
+Proof.
+  intros ch s H. destruct (ch =? ch_A)%N; [apply setk_state_plain_safe; auto using safe_pre|].
+  destruct (_ || _); [exact H | apply setk_state_plain_safe; auto using safe_pre].
+Qed.
+
+Lemma prefix_body_safe : forall ch s, Safe s ->
+  Safe (if (ch =? ch_T)%N then s |> prepare_parse_command |> setk_state CS_PARSE_COMMAND_CHAR
+        else if (ch =? ch_LF)%N then ack_error s
+        else if (ch =? ch_CR)%N then setk_cr true s
+        else setk_state CS_ERROR s).
+Proof.
+  intros ch s H. destruct (ch =? ch_T)%N.
+  - unfold prepare_parse_command. safe_open H. safe_split.
+    + rewrite repeat_length. exact Hcb.
+    + unfold KS; sproj. apply wf_ncmds.
+  - destruct (ch =? ch_LF)%N; [apply ack_error_safe, safe_pre, H|].
+    destruct (ch =? ch_CR)%N; [apply setk_cr_safe, H | apply setk_state_plain_safe; auto using safe_pre].
+Qed.
+
+Lemma search_start_safe : forall s, Pre ATCMD s ->
+  Safe (s |> prepare_search_command |> setk_state CS_SEARCH_COMMAND).
+Proof.
+  intros s H. unfold prepare_search_command. pre_open H.
+  safe_split; unfold cmd_wk, KS; sproj; auto using wf_ncmds.
+Qed.
+
+Lemma parse_command_body_safe : forall ch s, Safe s -> k_state (k s) = CS_PARSE_COMMAND_CHAR ->
+  Safe (if (ch =? ch_LF)%N then
+          if negb (k_length (k s) =? 0) then s |> prepare_search_command |> setk_state CS_SEARCH_COMMAND
+          else ack_ok s
+        else if (ch =? ch_CR)%N then setk_cr true s
+        else if (ch =? ch_QM)%N then
+          if k_length (k s) =? 0 then setk_state CS_ERROR s
+          else s |> setk_type T_READ |> setk_state CS_WAIT_READ_ACK
+        else if (ch =? ch_EQ)%N then
+          if k_length (k s) =? 0 then setk_state CS_ERROR s
+          else s |> setk_type T_WRITE |> prepare_search_command |> setk_state CS_SEARCH_COMMAND
+        else if is_name_char ch then
+          s |> setk_length (S (k_length (k s))) |> setk_state CS_UPDATE_COMMAND_STATE
+        else setk_state CS_ERROR s).
+Proof.
+  intros ch s H Hst. pose proof (safe_pre ATCMD s H) as HP.
+  destruct (ch =? ch_LF)%N.
+  { destruct (negb _); [apply search_start_safe; exact HP | apply ack_ok_safe; exact HP]. }
+  destruct (ch =? ch_CR)%N; [apply setk_cr_safe, H|].
+  destruct (ch =? ch_QM)%N.
+  { destruct (_ =? 0); [apply setk_state_plain_safe; auto|].
+    safe_open H. safe_split; unfold KS; sproj; exact I. }
+  destruct (ch =? ch_EQ)%N.
+  { destruct (_ =? 0); [apply setk_state_plain_safe; auto|].
+    apply (search_start_safe (setk_type T_WRITE s)). pre_open HP. pre_tac. }
+  destruct (is_name_char ch); [|apply setk_state_plain_safe; auto].
+  safe_open H. unfold KS in HK. rewrite Hst in HK. safe_split; unfold KS; sproj; lia.
+Qed.
+
+Lemma wait_read_body_safe : forall ch s, Safe s ->
+  Safe (if (ch =? ch_LF)%N then s |> prepare_search_command |> setk_state CS_SEARCH_COMMAND
+        else if (ch =? ch_CR)%N then setk_cr true s
+        else setk_state CS_ERROR s).
+Proof.
+  intros ch s H. destruct (ch =? ch_LF)%N; [apply search_start_safe, safe_pre, H|].
+  destruct (ch =? ch_CR)%N; [apply setk_cr_safe, H | apply setk_state_plain_safe; auto using safe_pre].
+Qed.
+
+Lemma wait_test_body_safe : forall ch s, Safe s -> k_state (k s) = CS_WAIT_TEST_ACK ->
+  Safe (if (ch =? ch_LF)%N then start_processing_format_test_args D ATCMD s
+        else if (ch =? ch_CR)%N then setk_cr true s
+        else setk_state CS_ERROR s).
+Proof.
+  intros ch s H Hst. destruct (ch =? ch_LF)%N.
+  - apply spfta_safe; [apply safe_pre, H|]. safe_open H. unfold KS in HK. rewrite Hst in HK. exact HK.
+  - destruct (ch =? ch_CR)%N; [apply setk_cr_safe, H | apply setk_state_plain_safe; auto using safe_pre].
+Qed.
+
+Lemma parse_command_args_body_safe : forall ch s, Safe s -> k_state (k s) = CS_PARSE_COMMAND_ARGS ->
+  Safe (match cmd_of D ATCMD s with
+    | None => set_fault_flag s
+    | Some c =>
+      if (ch =? ch_LF)%N then
+        if c_only_test c then ack_error s
+        else if vars_access_possible c WO then
+          s |> setk_state CS_PARSE_WRITE_ARGS |> setk_position 0 |> setk_index 0 |> setk_var 0
+        else if negb (c_hwrite c) then ack_error s
+        else s |> setk_index 0 |> setk_state CS_WRITE_LOOP
+      else if (ch =? ch_CR)%N then setk_cr true s
+      else if (k_length (k s) =? 0) && (ch =? ch_QM)%N
+              && (c_htest c || match c_vars c with [] => false | _ => true end)
+              && negb (c_implicit c)
+      then s |> setk_type T_TEST |> setk_state CS_WAIT_TEST_ACK
+      else
+        let len := k_length (k s) in
+        if asz s <=? len then setk_state CS_ERROR s
+        else
+          let s1 := s |> set_cbuf (upd (cbuf s) len ch) |> setk_length (S len) in
+          if S len <? asz s1 then set_cbuf (upd (cbuf s1) (S len) 0%N) s1
+          else setk_state CS_ERROR s1
+    end).
+Proof.
+  intros ch s H Hst. pose proof (safe_pre ATCMD s H) as HP. pose proof H as HS. safe_open H.
+  unfold KS in HK. rewrite Hst in HK. destruct HK as [Hc Hn].
+  unfold cmd_of, cmd_at. sproj. destruct (cmd_ok_at _ Hc) as (ci & c & E1 & E2). rewrite E1, E2.
+  destruct (ch =? ch_LF)%N.
+  { destruct (c_only_test c); [apply ack_error_safe; exact HP|].
+    destruct (vars_access_possible c WO) eqn:V.
+    - safe_split. unfold KS, var_ok; sproj. rewrite E1, E2. apply vap_nonempty in V.
+      split; [exact V|]. eapply nth_nul_from; eauto. lia.
+    - destruct (negb (c_hwrite c)); [apply ack_error_safe; exact HP|].
+      safe_split; unfold KS; sproj; exact Hc. }
+  destruct (ch =? ch_CR)%N; [apply setk_cr_safe, HS|].
+  destruct (_ && _ && _ && _).
+  { safe_split; unfold KS; sproj; exact Hc. }
+  cbv zeta. sproj.
+  destruct (Nat.leb_spec (length (cbuf s)) (k_length (k s))) as [L|L];
+    [apply setk_state_plain_safe; auto|].
+  rewrite upd_len.
+  destruct (Nat.ltb_spec (S (k_length (k s))) (length (cbuf s))) as [L2|L2].
+  - safe_split; [rewrite !upd_len; exact Hcb|]. unfold KS; sproj. rewrite Hst.
+    split; [exact Hc|]. apply nth_error_upd_eq. rewrite upd_len. exact L2.
+  - apply setk_state_plain_safe; auto. pre_open HP. pre_tac. rewrite upd_len. exact Hcb.
+Qed.
+
+(* cat.c:1961 *)
+Lemma check_unsolicited_buffers_safe : forall s, Safe s -> u_state (u s) = US_IDLE ->
+  Safe (check_unsolicited_buffers D s).
+Proof.
+  intros s H Hst. pose proof (safe_pre UNSOL s H) as HP.
+  unfold check_unsolicited_buffers.
+  destruct (pop_eff s) as [E | (hd & cnt & it & E & Hit & R)]; [apply H | rewrite E; exact H |].
+  rewrite E. destruct it as [ci t]. cbn [fst] in Hit.
+  assert (HP1 : Pre UNSOL (setu_type t (setu_cmd (Some ci) (setu_count cnt (setu_head hd s))))).
+  { pre_open HP. pre_tac. }
+  destruct t; try (apply spfra_safe; [exact HP1 | exact Hit]);
+    try (apply spfta_safe; [exact HP1 | exact Hit]);
+    (safe_open H; safe_split; unfold US; sproj; rewrite Hst; exact I).
+Qed.
+
+
+(* ------------------------------------------------------------------ *)
+(* sending the response (cat.c:2461, 2493): the state part              *)
+(* ------------------------------------------------------------------ *)
+
+Lemma wbuf_char_ok : forall wb ws p b, flush_ok wb ws p b ->
+  exists ch, wbuf_char wb b p = Some ch /\ (ch <> 0%N -> flush_ok wb ws (S p) b).
+Proof.
+  intros wb ws p b [H1 H2]. unfold wbuf_char, flush_ok. destruct wb as [[|]|].
+  - cbn [nl_max] in H1. destruct p as [|[|[|p]]]; try lia; cbn [nth_error nl_max];
+      eexists; (split; [reflexivity|]); intros Hc; try (split; [lia | exact H2]).
+  - cbn [nl_max] in H1. destruct p as [|[|p]]; try lia; cbn [nth_error nl_max];
+      eexists; (split; [reflexivity|]); intros Hc; try (split; [lia | exact H2]).
+  - destruct (nul_from_nth _ _ H1) as (c & Ec). exists c. split; [exact Ec|].
+    intros Hc. split; [eapply nul_from_S; eauto | exact H2].
+Qed.
+
+Lemma flush_done_k_safe : forall s, Safe s -> k_state (k s) = CS_FLUSH ->
+  Safe (match k_wstate (k s) with
+        | WS_BEFORE => s |> setk_position 0 |> setk_wbuf WB_MAIN |> setk_wstate WS_MAIN
+        | WS_MAIN => s |> setk_position 0 |> setk_wbuf (WB_NL (k_cr (k s))) |> setk_wstate WS_AFTER
+        | WS_AFTER =>
+          let s1 := setk_state (k_wafter (k s)) s in
+          if cstate_beq (k_wafter (k s)) CS_AFTER_RESET then set_gR (S (gR s1)) s1 else s1
+        end).
+Proof.
+  intros s H Hst. safe_open H. unfold KS in HK. rewrite Hst in HK. destruct HK as [[F1 F2] HA].
+  destruct (k_wstate (k s)) eqn:Ew.
+  - safe_split; unfold KS, flush_ok, Kafter in *; sproj; rewrite Hst;
+      repeat split; auto; apply nul_from_0; exact F2.
+  - safe_split; unfold KS, flush_ok, Kafter in *; sproj; rewrite Hst;
+      repeat split; auto using nl_max_0.
+  - cbv zeta. unfold Kafter in HA.
+    destruct (k_wafter (k s)) eqn:Ea; try contradiction; cbn [cstate_beq];
+      safe_split; unfold KS; sproj; auto.
+Qed.
+
+Lemma flush_adv_k_safe : forall s ch, Safe s -> k_state (k s) = CS_FLUSH ->
+  wbuf_char (k_wbuf (k s)) (cbuf s) (k_position (k s)) = Some ch -> ch <> 0%N ->
+  Safe (setk_position (S (k_position (k s))) s).
+Proof.
+  intros s ch H Hst Ec Hc. safe_open H. unfold KS in HK. rewrite Hst in HK. destruct HK as [F HA].
+  destruct (wbuf_char_ok _ _ _ _ F) as (ch' & E' & Hn). rewrite Ec in E'. injection E' as <-.
+  safe_split; unfold KS, Kafter in *; sproj; rewrite Hst; (split; [apply Hn, Hc | exact HA]).
+Qed.
+
+Lemma flush_done_u_safe : forall s, Safe s -> u_state (u s) = US_FLUSH ->
+  Safe (match u_wstate (u s) with
+        | WS_BEFORE => s |> setu_position 0 |> setu_wbuf WB_MAIN |> setu_wstate WS_MAIN
+        | WS_MAIN => s |> setu_position 0 |> setu_wbuf (WB_NL (k_cr (k s))) |> setu_wstate WS_AFTER
+        | WS_AFTER => setu_state (u_wafter (u s)) s
+        end).
+Proof.
+  intros s H Hst. safe_open H. unfold US in HU. rewrite Hst in HU. destruct HU as [[F1 F2] HA].
+  destruct (u_wstate (u s)) eqn:Ew.
+  - safe_split; unfold US, flush_ok, Uafter in *; sproj; rewrite Hst;
+      repeat split; auto; apply nul_from_0; exact F2.
+  - safe_split; unfold US, flush_ok, Uafter in *; sproj; rewrite Hst;
+      repeat split; auto using nl_max_0.
+  - unfold Uafter in HA.
+    destruct (u_wafter (u s)) eqn:Ea; try contradiction;
+      safe_split; unfold US; sproj; auto.
+Qed.
+
+Lemma flush_adv_u_safe : forall s ch, Safe s -> u_state (u s) = US_FLUSH ->
+  wbuf_char (u_wbuf (u s)) (ubuf s) (u_position (u s)) = Some ch -> ch <> 0%N ->
+  Safe (setu_position (S (u_position (u s))) s).
+Proof.
+  intros s ch H Hst Ec Hc. safe_open H. unfold US in HU. rewrite Hst in HU. destruct HU as [F HA].
+  destruct (wbuf_char_ok _ _ _ _ F) as (ch' & E' & Hn). rewrite Ec in E'. injection E' as <-.
+  safe_split; unfold US, Uafter in *; sproj; rewrite Hst; (split; [apply Hn, Hc | exact HA]).
+Qed.
+
+
+(* ================================================================== *)
+(* the part that talks to the environment                              *)
+(* ================================================================== *)
+
+Variables ioS muS hS : Type.
+Variable io_read : ioS -> ioS * option N.
+Variable io_write : ioS -> N -> ioS * bool.
+Variable mu_lock : muS -> muS * bool.
+Variable mu_unlock : muS -> muS * bool.
+Variable h_call : hS -> hreq -> hS * hres.
+
+(* API calls made from inside a handler only name commands of the pool *)
+Definition icall_ok (c : icall) : Prop :=
+  match c with ITrigger ci _ => ci < npool | IHoldExit _ => True end.
+Hypothesis handlers_ok : forall hs q, Forall icall_ok (r_calls (snd (h_call hs q))).
+
+Local Notation world := (Fsm.world ioS muS hS).
+Local Notation st := (Fsm.st ioS muS hS).
+Local Notation io := (Fsm.io ioS muS hS).
+Local Notation mu := (Fsm.mu ioS muS hS).
+Local Notation hs := (Fsm.hs ioS muS hS).
+Local Notation tr := (Fsm.tr ioS muS hS).
+Local Notation mkWorld := (Fsm.mkWorld ioS muS hS).
+Local Notation set_st := (Fsm.set_st ioS muS hS).
+Local Notation set_io := (Fsm.set_io ioS muS hS).
+Local Notation set_mu := (Fsm.set_mu ioS muS hS).
+Local Notation set_hs := (Fsm.set_hs ioS muS hS).
+Local Notation logw := (Fsm.logw ioS muS hS).
+Local Notation upd_st := (Fsm.upd_st ioS muS hS).
+Local Notation busy := (Fsm.busy ioS muS hS).
+Local Notation bracket := (Fsm.bracket D ioS muS hS mu_lock mu_unlock).
+Local Notation api_trigger := (Fsm.api_trigger D ioS muS hS mu_lock mu_unlock).
+Local Notation api_hold_exit := (Fsm.api_hold_exit D ioS muS hS mu_lock mu_unlock).
+Local Notation apply_icall := (Fsm.apply_icall D ioS muS hS mu_lock mu_unlock).
+Local Notation call_h := (Fsm.call_h D ioS muS hS mu_lock mu_unlock h_call).
+Local Notation read_cmd_char := (Fsm.read_cmd_char ioS muS hS io_read).
+Local Notation reading := (Fsm.reading ioS muS hS io_read).
+Local Notation parse_write_args := (Fsm.parse_write_args D ioS muS hS mu_lock mu_unlock h_call).
+Local Notation format_read_args := (Fsm.format_read_args D ioS muS hS mu_lock mu_unlock h_call).
+Local Notation process_write_loop := (Fsm.process_write_loop D ioS muS hS mu_lock mu_unlock h_call).
+Local Notation process_run_loop := (Fsm.process_run_loop D ioS muS hS mu_lock mu_unlock h_call).
+Local Notation process_rt_loop := (Fsm.process_rt_loop D ioS muS hS mu_lock mu_unlock h_call).
+Local Notation process_io_write := (Fsm.process_io_write ioS muS hS io_write).
+Local Notation unsolicited_process_io_write := (Fsm.unsolicited_process_io_write ioS muS hS io_write).
+Local Notation unsolicited_events_service :=
+  (Fsm.unsolicited_events_service D ioS muS hS io_write mu_lock mu_unlock h_call).
+Local Notation cmd_service :=
+  (Fsm.cmd_service D ioS muS hS io_read io_write mu_lock mu_unlock h_call).
+Local Notation service_body :=
+  (Fsm.service_body D ioS muS hS io_read io_write mu_lock mu_unlock h_call).
+Local Notation do_op := (Fsm.do_op D ioS muS hS io_read io_write mu_lock mu_unlock h_call).
+Local Notation step := (Fsm.step D ioS muS hS io_read io_write mu_lock mu_unlock h_call).
+Local Notation run := (Fsm.run D ioS muS hS io_read io_write mu_lock mu_unlock h_call).
+
+(* ------------------------------------------------------------------ *)
+(* what a handler may change: variable storage (same lengths), the     *)
+(* event queue, the hold-exit request                                   *)
+(* ------------------------------------------------------------------ *)
+
+Definition kv (s : state) : cfsm * list N := (set_k_hold_exit 0%Z (k s), cbuf s).
+Definition uv (s : state) : ufsm * list N :=
+  (set_u_count 0 (set_u_tail 0 (set_u_ring [] (u s))), ubuf s).
+
+Definition hrel (s s' : state) : Prop :=
+  (Safe s -> Safe s') /\ (forall f, Pre f s -> Pre f s') /\ kv s' = kv s /\ uv s' = uv s.
+
+Lemma hrel_refl : forall s, hrel s s.
+Proof. intros s. split; [auto | split; [auto | split; reflexivity]]. Qed.
+
+Lemma hrel_trans : forall a b c, hrel a b -> hrel b c -> hrel a c.
+Proof.
+  intros a b c (A1 & A2 & A3 & A4) (B1 & B2 & B3 & B4).
+  split; [auto | split; [auto | split; congruence]].
+Qed.
+
+Lemma hrel_poke : forall s p, hrel s (apply_poke s p).
+Proof.
+  intros s p. split; [apply apply_poke_safe|]. split; [intros f; apply apply_poke_pre|].
+  destruct (apply_poke_eff s p) as (mm & E & _). rewrite E. split; reflexivity.
+Qed.
+
+Lemma hrel_push : forall s ci t, ci < npool -> hrel s (fst (push_unsolicited_cmd D s ci t)).
+Proof.
+  intros s ci t H. split; [intros; apply push_safe; auto|].
+  split; [intros f Hf; apply push_pre; auto|].
+  unfold push_unsolicited_cmd. destruct (ring_full D s); cbn [fst]; [split; reflexivity|].
+  destruct (_ <? _); split; reflexivity.
+Qed.
+
+Lemma hrel_hold_exit : forall s z, hrel s (fst (hold_exit s z)).
+Proof.
+  intros s z. split; [apply hold_exit_safe|]. split; [intros f; apply hold_exit_pre|].
+  unfold hold_exit. destruct (negb _); cbn [fst]; split; reflexivity.
+Qed.
+
+Lemma bracket_hrel : forall s0 w body, hrel s0 (st w) ->
+  (forall w', st w' = st w -> hrel s0 (st (fst (body w')))) ->
+  hrel s0 (st (fst (bracket w body))).
+Proof.
+  intros s0 w body H Hb. unfold Fsm.bracket. destruct (d_mutex D); [|apply Hb; reflexivity].
+  destruct (mu_lock (mu w)) as [m1 ok]. destruct ok; cbn [negb fst]; [|exact H].
+  specialize (Hb (logw (ELock true) (set_mu m1 w)) eq_refl).
+  destruct (body (logw (ELock true) (set_mu m1 w))) as [w2 r]. cbn [fst] in Hb.
+  destruct (mu_unlock (mu w2)) as [m2 ok2]. destruct ok2; cbn [negb fst]; exact Hb.
+Qed.
+
+Lemma apply_icall_hrel : forall s0 w c, icall_ok c -> hrel s0 (st w) -> hrel s0 (st (apply_icall w c)).
+Proof.
+  intros s0 w c Hc H. unfold Fsm.apply_icall.
+  assert (X : hrel s0 (st (fst (match c with
+                 | ITrigger ci t => api_trigger w ci t
+                 | IHoldExit status => api_hold_exit w status end)))).
+  { destruct c as [ci t|z]; unfold Fsm.api_trigger, Fsm.api_hold_exit;
+      apply bracket_hrel; try exact H; intros w' E.
+    - destruct (push_unsolicited_cmd D (st w') ci t) as [s' r] eqn:Ep. cbn [fst Fsm.st Fsm.set_st].
+      eapply hrel_trans; [exact H|]. rewrite <- E. replace s' with (fst (push_unsolicited_cmd D (st w') ci t))
+        by (rewrite Ep; reflexivity). apply hrel_push. exact Hc.
+    - destruct (hold_exit (st w') z) as [s' r] eqn:Ep. cbn [fst Fsm.st Fsm.set_st].
+      eapply hrel_trans; [exact H|]. rewrite <- E. replace s' with (fst (hold_exit (st w') z))
+        by (rewrite Ep; reflexivity). apply hrel_hold_exit. }
+  destruct (match c with ITrigger ci t => _ | IHoldExit status => _ end) as [w' r]. exact X.
+Qed.
+
+Lemma fold_icall_hrel : forall s0 l w, Forall icall_ok l -> hrel s0 (st w) ->
+  hrel s0 (st (fold_left apply_icall l w)).
+Proof.
+  intros s0 l. induction l as [|c l IH]; intros w F H; [exact H|].
+  inversion F; subst. cbn [fold_left]. apply IH; [assumption|]. apply apply_icall_hrel; assumption.
+Qed.
+
+Lemma fold_poke_hrel : forall l s0 s, hrel s0 s -> hrel s0 (fold_left apply_poke l s).
+Proof.
+  induction l as [|p l IH]; intros s0 s H; [exact H|]. cbn [fold_left]. apply IH.
+  eapply hrel_trans; [exact H | apply hrel_poke].
+Qed.
+
+Lemma call_h_hrel : forall w q, hrel (st w) (st (fst (call_h w q))).
+Proof.
+  intros w q. unfold Fsm.call_h. pose proof (handlers_ok (hs w) q) as F.
+  destruct (h_call (hs w) q) as [hs' r]. cbn [snd] in F. cbv zeta. cbn [fst].
+  apply fold_icall_hrel; [exact F|]. cbn [Fsm.upd_st Fsm.st Fsm.set_st Fsm.logw Fsm.set_hs].
+  apply fold_poke_hrel. apply hrel_refl.
+Qed.
+
+Lemma call_h_res : forall w q, r_calls (snd (call_h w q)) = r_calls (snd (call_h w q)).
+Proof. reflexivity. Qed.
+
+(* projections of the preserved views *)
+Lemma kv_proj : forall s s', kv s' = kv s ->
+  k_state (k s') = k_state (k s) /\ k_cmd (k s') = k_cmd (k s) /\ k_var (k s') = k_var (k s) /\
+  k_index (k s') = k_index (k s) /\ k_position (k s') = k_position (k s) /\ cbuf s' = cbuf s.
+Proof.
+  intros s s' E. assert (E1 := f_equal fst E). assert (E2 := f_equal snd E).
+  unfold kv in E1, E2. cbn [fst snd] in E1, E2.
+  repeat split; [exact (f_equal k_state E1) | exact (f_equal k_cmd E1) | exact (f_equal k_var E1) |
+                 exact (f_equal k_index E1) | exact (f_equal k_position E1) | exact E2].
+Qed.
+
+Lemma uv_proj : forall s s', uv s' = uv s ->
+  u_state (u s') = u_state (u s) /\ u_cmd (u s') = u_cmd (u s) /\ u_var (u s') = u_var (u s) /\
+  u_index (u s') = u_index (u s) /\ u_position (u s') = u_position (u s) /\ ubuf s' = ubuf s.
+Proof.
+  intros s s' E. assert (E1 := f_equal fst E). assert (E2 := f_equal snd E).
+  unfold uv in E1, E2. cbn [fst snd] in E1, E2.
+  repeat split; [exact (f_equal u_state E1) | exact (f_equal u_cmd E1) | exact (f_equal u_var E1) |
+                 exact (f_equal u_index E1) | exact (f_equal u_position E1) | exact E2].
+Qed.
+
+
+(* ------------------------------------------------------------------ *)
+(* the state functions that talk to the environment                    *)
+(* ------------------------------------------------------------------ *)
+
+Ltac wsimp := cbn [Fsm.busy Fsm.upd_st Fsm.st Fsm.set_st Fsm.logw Fsm.set_io Fsm.set_hs Fsm.set_mu
+                   Fsm.io Fsm.mu Fsm.hs fst snd].
+
+Lemma reading_safe : forall w body, Safe (st w) ->
+  (forall ch s, Safe s -> k_state (k s) = k_state (k (st w)) -> Safe (body ch s)) ->
+  Safe (st (fst (reading w body))).
+Proof.
+  intros w body H Hb. unfold Fsm.reading, Fsm.read_cmd_char.
+  destruct (io_read (io w)) as [io' [ch|]]; wsimp; [|exact H].
+  apply Hb.
+  - safe_open H. destruct (_ && _); safe_split.
+  - destruct (_ && _); reflexivity.
+Qed.
+
+Definition loop_state (f : fsm) (s : state) : Prop :=
+  match f with
+  | ATCMD => k_state (k s) = CS_READ_LOOP \/ k_state (k s) = CS_TEST_LOOP
+  | UNSOL => u_state (u s) = US_READ_LOOP \/ u_state (u s) = US_TEST_LOOP
+  end.
+
+Lemma loop_state_inv : forall f s, Safe s -> loop_state f s ->
+  cmd_ok (g_cmd f s) /\ In 0%N (g_buf f s).
+Proof.
+  intros f s (HB & HK & HU) Hst. destruct f; cbn [loop_state] in Hst; sproj.
+  - unfold KS in HK. destruct Hst as [E|E]; rewrite E in HK; exact HK.
+  - unfold US in HU. destruct Hst as [E|E]; rewrite E in HU; exact HU.
+Qed.
+
+Lemma apply_edit_loop : forall f e s, Safe s -> loop_state f s ->
+  Safe (apply_edit f e s) /\ cmd_ok (g_cmd f (apply_edit f e s)) /\ In 0%N (g_buf f (apply_edit f e s)).
+Proof.
+  intros f e s H Hst. destruct (loop_state_inv f s H Hst) as [Hc Hn].
+  destruct (apply_edit_eff f e s) as [E | (b & p & E & L & Hb)]; rewrite E; [auto|].
+  destruct f; cbn [loop_state] in Hst; sproj_in Hc; sproj_in L; safe_open H; sproj;
+    (split; [|split; assumption]); safe_split; try congruence;
+    [unfold KS in * | unfold US in *]; sproj; destruct Hst as [E1|E1]; rewrite E1 in *; tauto.
+Qed.
+
+Lemma hrel_loop : forall f s s', hrel s s' -> loop_state f s -> loop_state f s'.
+Proof.
+  intros f s s' (_ & _ & K & U) H. destruct f; cbn [loop_state] in *.
+  - destruct (kv_proj _ _ K) as (E & _). rewrite E. exact H.
+  - destruct (uv_proj _ _ U) as (E & _). rewrite E. exact H.
+Qed.
+
+(* cat.c:2220, 2295 *)
+Lemma process_rt_loop_safe : forall rd f w, Safe (st w) -> loop_state f (st w) ->
+  Safe (st (fst (process_rt_loop rd f w))).
+Proof.
+  intros rd f w H Hst. unfold Fsm.process_rt_loop.
+  destruct (loop_state_inv f _ H Hst) as [Hc _].
+  destruct (g_cmd f (st w)) as [ci|] eqn:Ec; [|destruct Hc].
+  match goal with |- context [call_h w ?q] =>
+    pose proof (call_h_hrel w q) as R; destruct (call_h w q) as [w1 r] end.
+  cbn [fst] in R. wsimp.
+  pose proof (hrel_loop f _ _ R Hst) as Hst1. destruct R as (R1 & _). specialize (R1 H).
+  destruct (apply_edit_loop f (r_edit r) (st w1) R1 Hst1) as (S2 & C2 & N2).
+  set (s2 := apply_edit f (r_edit r) (st w1)) in *.
+  pose proof (safe_pre f s2 S2) as P2.
+  destruct (r_code r =? RC_OK)%Z; [apply end_with_ok_safe; exact P2|].
+  destruct (r_code r =? RC_DATA_OK)%Z; [apply start_flush_after_safe; auto|].
+  destruct (r_code r =? RC_DATA_NEXT)%Z.
+  { destruct rd; apply start_flush_after_safe; auto. }
+  destruct (r_code r =? RC_NEXT)%Z.
+  { destruct rd; [apply spfra_safe | apply spfta_safe]; auto. }
+  destruct (r_code r =? RC_HOLD)%Z; [apply enable_hold_state_safe; exact S2|].
+  destruct (r_code r =? RC_HOLD_EXIT_OK)%Z; [apply end_with_ok_safe, hold_exit_pre; exact P2|].
+  destruct (r_code r =? RC_HOLD_EXIT_ERROR)%Z; [apply end_with_error_safe, hold_exit_pre; exact P2|].
+  destruct ((r_code r =? RC_PRINT_CMD_LIST_OK)%Z && negb rd).
+  { destruct f; [apply start_print_cmd_list_safe | apply end_with_ok_safe]; exact P2. }
+  apply end_with_error_safe; exact P2.
+Qed.
+
+(* cat.c:2146 *)
+Lemma process_write_loop_safe : forall w, Safe (st w) -> k_state (k (st w)) = CS_WRITE_LOOP ->
+  Safe (st (fst (process_write_loop w))).
+Proof.
+  intros w H Hst. unfold Fsm.process_write_loop.
+  assert (Hc : cmd_ok (k_cmd (k (st w)))).
+  { destruct H as (_ & HK & _). unfold KS in HK. rewrite Hst in HK. exact HK. }
+  sproj. destruct (k_cmd (k (st w))) as [ci|] eqn:Ec; [|destruct Hc].
+  match goal with |- context [call_h w ?q] =>
+    pose proof (call_h_hrel w q) as R; destruct (call_h w q) as [w1 r] end.
+  cbn [fst] in R. wsimp. destruct R as (R1 & _). specialize (R1 H).
+  pose proof (safe_pre ATCMD _ R1) as P1.
+  destruct (_ || _); [apply ack_ok_safe; exact P1|].
+  destruct (_ || _); [exact R1|].
+  destruct (_ =? _)%Z; [apply enable_hold_state_safe; exact R1 | apply ack_error_safe; exact P1].
+Qed.
+
+(* cat.c:2173 *)
+Lemma process_run_loop_safe : forall w, Safe (st w) -> k_state (k (st w)) = CS_RUN_LOOP ->
+  Safe (st (fst (process_run_loop w))).
+Proof.
+  intros w H Hst. unfold Fsm.process_run_loop.
+  assert (Hc : cmd_ok (k_cmd (k (st w)))).
+  { destruct H as (_ & HK & _). unfold KS in HK. rewrite Hst in HK. exact HK. }
+  sproj. destruct (k_cmd (k (st w))) as [ci|] eqn:Ec; [|destruct Hc].
+  match goal with |- context [call_h w ?q] =>
+    pose proof (call_h_hrel w q) as R; destruct (call_h w q) as [w1 r] end.
+  cbn [fst] in R. wsimp. destruct R as (R1 & _). specialize (R1 H).
+  pose proof (safe_pre ATCMD _ R1) as P1.
+  destruct (_ || _); [apply ack_ok_safe; exact P1|].
+  destruct (_ || _); [exact R1|].
+  destruct (_ =? _)%Z; [apply enable_hold_state_safe; exact R1|].
+  destruct (_ =? _)%Z; [apply start_print_cmd_list_safe; exact P1 | apply ack_error_safe; exact P1].
+Qed.
+
+Lemma hrel_fmt : forall f s s' rd, hrel s s' -> fmt_state f s rd ->
+  fmt_state f s' rd /\ g_cmd f s' = g_cmd f s /\ g_var f s' = g_var f s.
+Proof.
+  intros f s s' rd (_ & _ & K & U) H. destruct f; cbn [fmt_state g_cmd g_var] in *.
+  - destruct (kv_proj _ _ K) as (E1 & E2 & E3 & _). rewrite E1, E2, E3. auto.
+  - destruct (uv_proj _ _ U) as (E1 & E2 & E3 & _). rewrite E1, E2, E3. auto.
+Qed.
+
+(* cat.c:1783 *)
+Lemma format_read_args_safe : forall f w, Safe (st w) -> fmt_state f (st w) true ->
+  Safe (st (fst (format_read_args f w))).
+Proof.
+  intros f w H Hst. unfold Fsm.format_read_args.
+  destruct (fmt_state_inv f _ true H Hst) as (Hv & _).
+  destruct (var_ok_at _ _ Hv) as (ci & c & v & E1 & E2 & E3).
+  unfold cmd_of, cmd_at. rewrite E1, E2, E3.
+  assert (X : exists w1 failed, hrel (st w) (st w1) /\
+     (if v_hread v then let (w', r) := call_h w (VRead f ci (g_var f (st w))) in (w', negb (r_code r =? 0)%Z)
+      else (w, false)) = (w1, failed)).
+  { destruct (v_hread v).
+    - pose proof (call_h_hrel w (VRead f ci (g_var f (st w)))) as R.
+      destruct (call_h w (VRead f ci (g_var f (st w)))) as [w' r]. eexists _, _. split; [exact R | reflexivity].
+    - eexists _, _. split; [apply hrel_refl | reflexivity]. }
+  destruct X as (w1 & failed & R & EX). rewrite EX. clear EX.
+  destruct (hrel_fmt f _ _ true R Hst) as (Hst1 & Ec1 & Ev1).
+  destruct R as (R1 & _). specialize (R1 H).
+  destruct failed; wsimp.
+  - apply end_with_error_safe, safe_pre, R1.
+  - apply (fra_body_safe f (st w1) ci c v); auto; congruence.
+Qed.
+
+
+(* cat.c:1365: the continuation after the variable's write callback *)
+Lemma pwa_tail_safe : forall s ci c comma, Pre ATCMD s -> k_cmd (k s) = Some ci ->
+  nth_error (pool D) ci = Some c -> k_state (k s) = CS_PARSE_WRITE_ARGS ->
+  (comma = true -> nul_from (k_position (k s)) (cbuf s)) ->
+  Safe (let idx := S (k_index (k s)) in
+        let s := setk_index idx s in
+        if (idx <? length (c_vars c)) && comma then setk_var idx s
+        else if comma then ack_error s
+        else if c_need_all c && negb (idx =? length (c_vars c)) then ack_error s
+        else if negb (c_hwrite c) then ack_ok s
+        else setk_state CS_WRITE_LOOP s).
+Proof.
+  intros s ci c comma H E1 E2 Hst Hn. cbv zeta.
+  assert (HP : Pre ATCMD (setk_index (S (k_index (k s))) s)) by (pre_open H; pre_tac).
+  destruct (Nat.ltb_spec (S (k_index (k s))) (length (c_vars c))) as [L|L]; cbn [andb].
+  - destruct comma.
+    + pre_open H. safe_split. unfold KS, var_ok; sproj. rewrite Hst, E1, E2. auto.
+    + destruct (_ && _); [apply ack_error_safe; exact HP|].
+      destruct (negb _); [apply ack_ok_safe; exact HP|].
+      pre_open H. safe_split. unfold KS, cmd_ok; sproj. rewrite E1.
+      apply nth_error_Some. congruence.
+  - destruct comma; [apply ack_error_safe; exact HP|].
+    destruct (_ && _); [apply ack_error_safe; exact HP|].
+    destruct (negb _); [apply ack_ok_safe; exact HP|].
+    pre_open H. safe_split. unfold KS, cmd_ok; sproj. rewrite E1.
+    apply nth_error_Some. congruence.
+Qed.
+
+Lemma parse_write_args_safe : forall w, Safe (st w) -> k_state (k (st w)) = CS_PARSE_WRITE_ARGS ->
+  Safe (st (fst (parse_write_args w))).
+Proof.
+  intros w H Hst. unfold Fsm.parse_write_args.
+  pose proof (safe_pre ATCMD _ H) as HP.
+  assert (HK : var_ok (k_cmd (k (st w))) (k_var (k (st w))) /\
+               nul_from (k_position (k (st w))) (cbuf (st w))).
+  { destruct H as (_ & HK & _). unfold KS in HK. rewrite Hst in HK. exact HK. }
+  destruct HK as [Hv Hn].
+  destruct (var_ok_at _ _ Hv) as (ci & c & v & E1 & E2 & E3).
+  unfold cmd_of, cmd_at. sproj. rewrite E1, E2, E3.
+  destruct (wf_var_at _ _ _ _ E2 E3) as [Wv _].
+  assert (Hm : map (@length N) (mem (st w)) = map (@length N) m) by apply H.
+  destruct (mem_slot _ v Hm Wv) as (data & Ed & Ld). rewrite Ed.
+  pose proof (decode_var_safe v (skipn (k_position (k (st w))) (cbuf (st w))) data Hn Ld) as Dv.
+  destruct (decode_var v _ data) as [[[pst data'] wsz] n]. destruct Dv as (D1 & D2 & D3).
+  set (s1 := set_mem (upd (mem (st w)) (v_slot v) data')
+                     (setk_position (k_position (k (st w)) + n) (st w))).
+  assert (HP1 : Pre ATCMD s1).
+  { subst s1. pre_open HP. pre_tac. rewrite <- Hm. eapply map_length_upd; eauto. }
+  destruct pst as [| |comma]; [congruence | wsimp; apply ack_error_safe; exact HP1 |].
+  set (s2 := setk_write_size wsz s1).
+  assert (HP2 : Pre ATCMD s2) by (subst s2; pre_open HP1; pre_tac).
+  assert (X : exists w3 failed, hrel s2 (st w3) /\
+     (if v_hwrite v
+      then let (w', r) := call_h (set_st s2 w) (VWrite ci (k_var (k (st w))) wsz data') in
+           (w', negb (r_code r =? 0)%Z)
+      else (set_st s2 w, false)) = (w3, failed)).
+  { destruct (v_hwrite v).
+    - pose proof (call_h_hrel (set_st s2 w) (VWrite ci (k_var (k (st w))) wsz data')) as R.
+      destruct (call_h (set_st s2 w) _) as [w' r]. cbn [Fsm.st Fsm.set_st fst] in R.
+      exists w', (negb (r_code r =? 0)%Z). split; [exact R | reflexivity].
+    - exists (set_st s2 w), false. split; [apply hrel_refl | reflexivity]. }
+  destruct X as (w3 & failed & R & EX). rewrite EX. clear EX.
+  destruct R as (_ & R2 & K & _). specialize (R2 ATCMD HP2).
+  destruct (kv_proj _ _ K) as (K1 & K2 & _ & _ & K5 & K6).
+  destruct failed; wsimp; [apply ack_error_safe; exact R2|].
+  apply (pwa_tail_safe (st w3) ci c comma); auto.
+  - rewrite K2. exact E1.
+  - rewrite K1. exact Hst.
+  - intros ->. rewrite K5, K6. subst s2 s1. sproj.
+    unfold nul_from. rewrite <- skipn_skipn_add. apply D3. reflexivity.
+Qed.
+
+(* cat.c:2461 *)
+Lemma process_io_write_safe : forall w, Safe (st w) -> k_state (k (st w)) = CS_FLUSH ->
+  Safe (st (fst (process_io_write w))).
+Proof.
+  intros w H Hst. unfold Fsm.process_io_write.
+  assert (F : flush_ok (k_wbuf (k (st w))) (k_wstate (k (st w))) (k_position (k (st w))) (cbuf (st w))).
+  { destruct H as (_ & HK & _). unfold KS in HK. rewrite Hst in HK. apply HK. }
+  destruct (wbuf_char_ok _ _ _ _ F) as (ch & Ec & _). rewrite Ec.
+  destruct (N.eqb_spec ch 0) as [Z|Z]; wsimp.
+  - apply flush_done_k_safe; assumption.
+  - destruct (io_write (io w) ch) as [io' ok]. destruct ok; wsimp; [|exact H].
+    eapply flush_adv_k_safe; eauto.
+Qed.
+
+(* cat.c:2493 *)
+Lemma unsolicited_process_io_write_safe : forall w, Safe (st w) -> u_state (u (st w)) = US_FLUSH ->
+  Safe (st (fst (unsolicited_process_io_write w))).
+Proof.
+  intros w H Hst. unfold Fsm.unsolicited_process_io_write.
+  assert (F : flush_ok (u_wbuf (u (st w))) (u_wstate (u (st w))) (u_position (u (st w))) (ubuf (st w))).
+  { destruct H as (_ & _ & HU). unfold US in HU. rewrite Hst in HU. apply HU. }
+  destruct (wbuf_char_ok _ _ _ _ F) as (ch & Ec & _). rewrite Ec.
+  destruct (N.eqb_spec ch 0) as [Z|Z]; wsimp.
+  - apply flush_done_u_safe; assumption.
+  - destruct (io_write (io w) ch) as [io' ok]. destruct ok; wsimp; [|exact H].
+    eapply flush_adv_u_safe; eauto.
+Qed.
+
+
+(* ------------------------------------------------------------------ *)
+(* cat_service                                                          *)
+(* ------------------------------------------------------------------ *)
+
+Lemma cmd_service_safe : forall w, Safe (st w) -> Safe (st (fst (cmd_service w))).
+Proof.
+  intros w H. unfold Fsm.cmd_service.
+  destruct (k_state (k (st w))) eqn:Hst;
+    unfold Fsm.error_state, Fsm.process_idle_state, Fsm.parse_prefix, Fsm.parse_command,
+           Fsm.wait_read_acknowledge, Fsm.wait_test_acknowledge, Fsm.parse_command_args.
+  - apply reading_safe; [exact H|]. intros ch s Hs _. apply error_body_safe, Hs.
+  - apply reading_safe; [exact H|]. intros ch s Hs _. apply idle_body_safe, Hs.
+  - apply reading_safe; [exact H|]. intros ch s Hs _. apply prefix_body_safe, Hs.
+  - apply reading_safe; [exact H|]. intros ch s Hs E. apply parse_command_body_safe; [exact Hs | congruence].
+  - wsimp. apply update_command_safe; assumption.
+  - apply reading_safe; [exact H|]. intros ch s Hs _. apply wait_read_body_safe, Hs.
+  - wsimp. apply search_command_safe; assumption.
+  - wsimp. apply command_found_safe; assumption.
+  - wsimp. apply ack_error_safe, safe_pre, H.
+  - apply reading_safe; [exact H|]. intros ch s Hs E.
+    apply parse_command_args_body_safe; [exact Hs | congruence].
+  - apply parse_write_args_safe; assumption.
+  - apply format_read_args_safe; [exact H | exact Hst].
+  - apply reading_safe; [exact H|]. intros ch s Hs E. apply wait_test_body_safe; [exact Hs | congruence].
+  - wsimp. apply format_test_args_safe; [exact H | exact Hst].
+  - apply process_write_loop_safe; assumption.
+  - apply process_rt_loop_safe; [exact H | left; exact Hst].
+  - apply process_rt_loop_safe; [exact H | right; exact Hst].
+  - apply process_run_loop_safe; assumption.
+  - wsimp. apply process_hold_state_safe, H.
+  - wsimp. apply process_io_write_wait_safe; assumption.
+  - apply process_io_write_safe; assumption.
+  - wsimp. apply reset_state_safe, safe_pre, H.
+  - wsimp. apply ack_ok_safe, safe_pre, H.
+  - wsimp. apply spfra_safe; [apply safe_pre, H|].
+    destruct H as (_ & HK & _). unfold KS in HK. rewrite Hst in HK. exact HK.
+  - wsimp. apply spfta_safe; [apply safe_pre, H|].
+    destruct H as (_ & HK & _). unfold KS in HK. rewrite Hst in HK. exact HK.
+  - wsimp. apply print_cmd_list_safe; assumption.
+Qed.
+
+Lemma unsolicited_events_service_safe : forall w, Safe (st w) ->
+  Safe (st (fst (unsolicited_events_service w))).
+Proof.
+  intros w H. unfold Fsm.unsolicited_events_service.
+  destruct (u_state (u (st w))) eqn:Hst.
+  - destruct (negb (ring_empty (st w))); [|exact H].
+    destruct (ring_items D (st w)); wsimp; apply check_unsolicited_buffers_safe; assumption.
+  - apply format_read_args_safe; [exact H | exact Hst].
+  - wsimp. apply format_test_args_safe; [exact H | exact Hst].
+  - apply process_rt_loop_safe; [exact H | left; exact Hst].
+  - apply process_rt_loop_safe; [exact H | right; exact Hst].
+  - wsimp. apply unsolicited_process_io_write_wait_safe; assumption.
+  - apply unsolicited_process_io_write_safe; assumption.
+  - wsimp. apply unsolicited_reset_state_safe, safe_pre, H.
+  - wsimp. apply unsolicited_reset_state_safe, safe_pre, H.
+  - wsimp. apply spfra_safe; [apply safe_pre, H|].
+    destruct H as (_ & _ & HU). unfold US in HU. rewrite Hst in HU. exact HU.
+  - wsimp. apply spfta_safe; [apply safe_pre, H|].
+    destruct H as (_ & _ & HU). unfold US in HU. rewrite Hst in HU. exact HU.
+Qed.
+
+Lemma service_body_safe : forall w, Safe (st w) -> Safe (st (fst (service_body w))).
+Proof.
+  intros w H. unfold Fsm.service_body.
+  pose proof (unsolicited_events_service_safe w H) as H1.
+  destruct (unsolicited_events_service w) as [w1 us]. cbn [fst] in H1.
+  pose proof (cmd_service_safe w1 H1) as H2.
+  destruct (cmd_service w1) as [w2 s]. cbn [fst] in H2.
+  destruct (_ || _); exact H2.
+Qed.
+
+Lemma bracket_st : forall (P : state -> Prop) w body, P (st w) ->
+  (forall w', st w' = st w -> P (st (fst (body w')))) ->
+  P (st (fst (bracket w body))).
+Proof.
+  intros P w body H Hb. unfold Fsm.bracket. destruct (d_mutex D); [|apply Hb; reflexivity].
+  destruct (mu_lock (mu w)) as [m1 ok]. destruct ok; cbn [negb fst]; [|exact H].
+  specialize (Hb (logw (ELock true) (set_mu m1 w)) eq_refl).
+  destruct (body (logw (ELock true) (set_mu m1 w))) as [w2 r]. cbn [fst] in Hb.
+  destruct (mu_unlock (mu w2)) as [m2 ok2]. destruct ok2; cbn [negb fst]; exact Hb.
+Qed.
+
+Definition op_ok (o : op) : Prop :=
+  match o with OTrigger ci _ => ci < npool | _ => True end.
+
+Lemma do_op_safe : forall w o, op_ok o -> Safe (st w) -> Safe (st (fst (do_op w o))).
+Proof.
+  intros w o Ho H. destruct o; cbn [Fsm.do_op op_ok] in *;
+    unfold Fsm.api_service, Fsm.api_trigger, Fsm.api_hold_exit, Fsm.api_is_busy, Fsm.api_is_hold,
+           Fsm.api_is_full;
+    try (apply bracket_st; [exact H|]; intros w' E; cbn [fst]; rewrite E; exact H);
+    try exact H.
+  - apply bracket_st; [exact H|]. intros w' E. apply service_body_safe. rewrite E. exact H.
+  - apply bracket_st; [exact H|]. intros w' E.
+    pose proof (push_safe (st w') ci t) as X. rewrite E in X. specialize (X H Ho). rewrite E.
+    destruct (push_unsolicited_cmd D (st w) ci t) as [s' r]. exact X.
+  - apply bracket_st; [exact H|]. intros w' E.
+    pose proof (hold_exit_safe (st w') status) as X. rewrite E in X. specialize (X H). rewrite E.
+    destruct (hold_exit (st w) status) as [s' r]. exact X.
+Qed.
+
+Lemma step_safe : forall w o, op_ok o -> Safe (st w) -> Safe (st (step w o)).
+Proof.
+  intros w o Ho H. unfold Fsm.step. pose proof (do_op_safe w o Ho H) as X.
+  destruct (do_op w o) as [w' r]. exact X.
+Qed.
+
+Lemma run_safe : forall ops w, Forall op_ok ops -> Safe (st w) -> Safe (st (run w ops)).
+Proof.
+  unfold Fsm.run. induction ops as [|o ops IH]; intros w F H; [exact H|].
+  inversion F; subst. cbn [fold_left]. apply IH; [assumption|]. apply step_safe; assumption.
+Qed.
+
+Theorem no_fault_gen : forall x mx h ops, Forall op_ok ops ->
+  fault (st (run (mkWorld (init_state D m) x mx h []) ops)) = false.
+Proof.
+  intros x mx h ops F. apply safe_fault. apply run_safe; [exact F|]. apply safe_init.
+Qed.
+
+
 End Inv.
+
+(* ================================================================== *)
+(* the requested statement                                             *)
+(* ================================================================== *)
+
+Theorem C03_no_fault_proof : forall (D : desc) (ioS muS hS : Type)
+  (io_read : ioS -> ioS * option N) (io_write : ioS -> N -> ioS * bool)
+  (mu_lock mu_unlock : muS -> muS * bool) (h_call : hS -> hreq -> hS * hres),
+  (forall hs q, Forall (valid_icall D) (r_calls (snd (h_call hs q)))) ->
+  forall m x mx h ops, wf_desc D m -> Forall (valid_op D) ops ->
+  fault (st ioS muS hS (run D ioS muS hS io_read io_write mu_lock mu_unlock h_call
+                            (mkWorld ioS muS hS (init_state D m) x mx h []) ops)) = false.
+Proof.
+  intros D ioS muS hS io_read io_write mu_lock mu_unlock h_call HV m x mx h ops WF F.
+  apply no_fault_gen; [exact WF | |].
+  - intros hs0 q. eapply Forall_impl; [|apply HV]. intros [ci t|z] Hc; cbn in *; [apply Hc | exact I].
+  - eapply Forall_impl; [|exact F]. intros o Ho. destruct o; cbn in *; try exact I. apply Ho.
+Qed.
+
+(* the same with the weakest hypothesis the proof uses: events only have to name a command of
+   the pool, whatever their type *)
+Theorem C03_no_fault_any_type_proof : forall (D : desc) (ioS muS hS : Type)
+  (io_read : ioS -> ioS * option N) (io_write : ioS -> N -> ioS * bool)
+  (mu_lock mu_unlock : muS -> muS * bool) (h_call : hS -> hreq -> hS * hres),
+  (forall hs q, Forall (icall_ok D) (r_calls (snd (h_call hs q)))) ->
+  forall m x mx h ops, wf_desc D m -> Forall (op_ok D) ops ->
+  fault (st ioS muS hS (run D ioS muS hS io_read io_write mu_lock mu_unlock h_call
+                            (mkWorld ioS muS hS (init_state D m) x mx h []) ops)) = false.
+Proof. intros. apply no_fault_gen; assumption. Qed.
